@@ -13,6 +13,7 @@ import (
 //	g_antlr          the generated parser (p.Sysl_file()) runs in a function with a deferred recover()
 //	g_walk_specs     every ParseTreeWalker.Walk reachable from parseSpecs runs in a function with a deferred recover()
 //	g_walk_imports   same for parseImports (the import pre-parse)
+//	g_post           lint (lintAppDefs, lintEndpoint) and postProcess, as reached from parseSpecs, run in a function with a deferred recover()
 //	err_parse / err_collect   every error returned by a pipeline stage call is tested and returned, not dropped
 //	exit codes       ParseError, ImportError (constants.go), the default in main2
 func init() { register("Guards", guards) }
@@ -253,8 +254,15 @@ func guards(repo string) (string, error) {
 	gAntlr, sA := allGuarded("parseString", "Sysl_file")
 	gSpecs, sS := allGuarded("parseSpecs", "Walk")
 	gImports, sI := allGuarded("parseImports", "Walk")
+	gPost := true
+	var sP []string
+	for _, sel := range []string{"postProcess", "lintEndpoint", "lintAppDefs"} {
+		g, ss := allGuarded("parseSpecs", sel)
+		gPost = gPost && g
+		sP = append(sP, ss...)
+	}
 
-	parseStages := map[string]bool{"parseString": true, "walkTree": true, "importForeign": true, "Wait": true, "Merge": true}
+	parseStages := map[string]bool{"parseString": true, "walkTree": true, "importForeign": true, "Wait": true, "Merge": true, "finishModule": true}
 	collectStages := map[string]bool{"ReadHashBranch": true, "parseImports": true, "Wait": true, "collectSpecs": true, "parseString": true, "walkTree": true}
 	errParse, nP := false, 0
 	if fd := fns["parseSpecs"]; fd != nil {
@@ -337,9 +345,9 @@ func guards(repo string) (string, error) {
 	var sb strings.Builder
 	sb.WriteString("(* GENERATED by vt Guards from pkg/parse/parse.go, pkg/parse/constants.go, cmd/sysl/sysl.go -- do not edit *)\n")
 	sb.WriteString("From Coq Require Import ZArith Bool.\nRequire Import Verif.Total.Pipeline.\nLocal Open Scope Z_scope.\n")
-	fmt.Fprintf(&sb, "(* Sysl_file sites: %v ; Walk sites from parseSpecs: %v ; from parseImports: %v ; stage calls checked: parse %d, collect %d *)\n", sA, sS, sI, nP, nC)
-	fmt.Fprintf(&sb, "Definition guards : guardset := {|\n  g_antlr := %s;\n  g_walk_specs := %s;\n  g_walk_imports := %s;\n  err_parse_propagated := %s;\n  err_collect_propagated := %s;\n  exit_uses_code := %s;\n  parse_error_code := %s;\n  import_error_code := %s;\n  default_exit_code := %s |}.\n",
-		gbool(gAntlr), gbool(gSpecs), gbool(gImports), gbool(errParse), gbool(errCollect), gbool(usesCode),
+	fmt.Fprintf(&sb, "(* Sysl_file sites: %v ; Walk sites from parseSpecs: %v ; from parseImports: %v ; post-processing sites: %v ; stage calls checked: parse %d, collect %d *)\n", sA, sS, sI, sP, nP, nC)
+	fmt.Fprintf(&sb, "Definition guards : guardset := {|\n  g_antlr := %s;\n  g_walk_specs := %s;\n  g_walk_imports := %s;\n  g_post := %s;\n  err_parse_propagated := %s;\n  err_collect_propagated := %s;\n  exit_uses_code := %s;\n  parse_error_code := %s;\n  import_error_code := %s;\n  default_exit_code := %s |}.\n",
+		gbool(gAntlr), gbool(gSpecs), gbool(gImports), gbool(gPost), gbool(errParse), gbool(errCollect), gbool(usesCode),
 		num(consts["ParseError"]), num(consts["ImportError"]), num(defCode))
 	return sb.String(), nil
 }
